@@ -12,7 +12,10 @@ use crate::common::Result;
 use crate::ParserOptions;
 
 const BLOCK_VALID_CHAIN: u64 = 4;
+const BLOCK_VALID_SCRIPTS: u64 = 5;
+const BLOCK_VALID_MASK: u64 = 7;
 const BLOCK_HAVE_DATA: u64 = 8;
+const BLOCK_FAILED_MASK: u64 = 32 | 64;
 
 /// Holds the index of longest valid chain
 pub struct ChainIndex {
@@ -84,6 +87,7 @@ impl ChainIndex {
 /// See https://bitcoin.stackexchange.com/questions/28168/what-are-the-keys-used-in-the-blockchain-leveldb-ie-what-are-the-keyvalue-pair
 pub struct BlockIndexRecord {
     pub block_hash: sha256d::Hash,
+    pub prev_hash: sha256d::Hash,
     pub blk_index: u64,
     pub data_offset: u64, // offset within the blk file
     version: u64,
@@ -104,8 +108,17 @@ impl BlockIndexRecord {
         let blk_index = read_varint(&mut reader)?;
         let data_offset = read_varint(&mut reader)?;
 
+        // The record ends with the 80 byte block header (version, prev_hash, ...)
+        let prev_hash: [u8; 32] = values
+            .len()
+            .checked_sub(76)
+            .and_then(|start| values.get(start..start + 32))
+            .ok_or("leveldb: malformed block index record")?
+            .try_into()?;
+
         Ok(BlockIndexRecord {
             block_hash: sha256d::Hash::from_byte_array(block_hash),
+            prev_hash: sha256d::Hash::from_byte_array(prev_hash),
             version,
             height,
             status,
@@ -120,6 +133,7 @@ impl fmt::Debug for BlockIndexRecord {
     fn fmt(&self, f: &mut fmt::Formatter<'_>) -> fmt::Result {
         f.debug_struct("BlockIndexRecord")
             .field("block_hash", &self.block_hash)
+            .field("prev_hash", &self.prev_hash)
             .field("version", &self.version)
             .field("height", &self.height)
             .field("status", &self.status)
@@ -133,7 +147,7 @@ impl fmt::Debug for BlockIndexRecord {
 pub fn get_block_index(path: &Path) -> Result<HashMap<u64, BlockIndexRecord>> {
     info!(target: "index", "Reading index from {} ...", path.display());
 
-    let mut block_index = HashMap::with_capacity(900000);
+    let mut records = HashMap::with_capacity(900000);
     let mut db_iter = DB::open(path, Options::default())?.new_iter()?;
     let (mut key, mut value) = (vec![], vec![]);
 
@@ -142,9 +156,22 @@ pub fn get_block_index(path: &Path) -> Result<HashMap<u64, BlockIndexRecord>> {
         if is_block_index_record(&key) {
             let record = BlockIndexRecord::from(&key[1..], &value)?;
             if record.status & (BLOCK_VALID_CHAIN | BLOCK_HAVE_DATA) > 0 {
-                block_index.insert(record.height, record);
+                records.insert(record.block_hash, record);
             }
         }
+    }
+
+    // The index also contains stale, failed and reorged-out blocks. The active chain ends at the
+    // highest block that has been fully validated, all its ancestors are found via prev_hash.
+    let mut cursor = records
+        .values()
+        .filter(|r| r.status & BLOCK_FAILED_MASK == 0)
+        .max_by_key(|r| (r.status & BLOCK_VALID_MASK >= BLOCK_VALID_SCRIPTS, r.height))
+        .map(|r| r.block_hash);
+    let mut block_index = HashMap::with_capacity(records.len());
+    while let Some(record) = cursor.and_then(|hash| records.remove(&hash)) {
+        cursor = Some(record.prev_hash);
+        block_index.insert(record.height, record);
     }
     info!(target: "index", "Got longest chain with {} blocks ...", block_index.len());
     Ok(block_index)
